@@ -314,12 +314,13 @@ class SFTPServer(BaseSFTP, SubsystemHandler):
                 request_number, SFTP_FAILURE, "No supported hash types found"
             )
             return
-        if length == 0:
-            st = f.stat()
-            if not issubclass(type(st), SFTPAttributes):
-                self._send_status(request_number, st, "Unable to stat file")
-                return
-            length = st.st_size - start
+        st = f.stat()
+        if not issubclass(type(st), SFTPAttributes):
+            self._send_status(request_number, st, "Unable to stat file")
+            return
+        if length == 0 or start + length > st.st_size:
+            # the range ends at end of file
+            length = max(st.st_size - start, 0)
         if block_size == 0:
             block_size = length
         if block_size < 256:
@@ -330,22 +331,27 @@ class SFTPServer(BaseSFTP, SubsystemHandler):
 
         sum_out = bytes()
         offset = start
-        while offset < start + length:
-            blocklen = min(block_size, start + length - offset)
-            # don't try to read more than about 64KB at a time
-            chunklen = min(blocklen, 65536)
+        end = start + length
+        eof = False
+        while offset < end and not eof:
+            blocklen = min(block_size, end - offset)
             count = 0
             hash_obj = alg()
             while count < blocklen:
-                data = f.read(offset, chunklen)
+                # don't try to read more than about 64KB at a time
+                data = f.read(offset, min(blocklen - count, 65536))
                 if not isinstance(data, bytes):
                     self._send_status(
                         request_number, data, "Unable to hash file"
                     )
                     return
+                if len(data) == 0:
+                    # unexpected end of file (the file shrank)
+                    eof = True
+                    break
                 hash_obj.update(data)
                 count += len(data)
-                offset += count
+                offset += len(data)
             sum_out += hash_obj.digest()
 
         msg = Message()
